@@ -287,6 +287,27 @@ static bool do_op(shadow *sh, int op, mismatch *mm, bool counting)
     }
     (void) retptr_null;
     binson_err e1 = p->error_flags;
+    /* the parser object must not be left holding a pointer into a stack frame that no longer exists (the library's own
+     * callback context lives on its stack during to_string / print): the next call would run on dead memory */
+    {
+        volatile char here;
+        uintptr_t top = (uintptr_t) &here, ctx = (uintptr_t) p->cb_context;
+        if (p->cb_context && ctx < top && top - ctx < (1u << 20)) {
+            snprintf(mm->why, sizeof mm->why, "after %s the parser still holds cb_context pointing %zu bytes below the caller's frame, into a dead stack frame (cb %s)", opname[op],
+                     (size_t) (top - ctx), p->cb == NULL ? "NULL" : (p->cb == count_cb ? "= the caller's" : "= a library-internal function"));
+            snprintf(mm->sig, sizeof mm->sig, "dangling-stack-context:%s", opname[op]);
+            mm->prop = "C01";
+            if (P_C01) return false;
+            mm->prop = NULL;
+        }
+        if (e1 == BINSON_ERROR_NONE && (p->state != L.st || (p->current_state && (p->current_state < L.st || p->current_state >= L.st + L.max_depth)))) {
+            snprintf(mm->why, sizeof mm->why, "after %s the parser's state pointers no longer point into the caller-supplied state array", opname[op]);
+            snprintf(mm->sig, sizeof mm->sig, "state-pointer-escaped:%s", opname[op]);
+            mm->prop = "C01";
+            if (P_C01) return false;
+            mm->prop = NULL;
+        }
+    }
     if (counting) {
         vf_count(CT_TRANS, 1);
         vf_count(CT_CB_CALLS, cb_count);
@@ -891,7 +912,7 @@ int main(int argc, char **argv)
              "(incl. the empty and 1-byte buffers), all valid documents with <= %d value tokens and ALL their one-deviation mutants (each byte x 12 values, "
              "truncation/deletion/duplication at every byte, every hostile token appended / inserted), nesting towers k in {d-1,d,d+1} for max_depth d in "
              "{1,2,3,10,255} and 254..257 nested arrays; x {init_object, init_array} x max_depth {1,2,3} x prior memory fill {0x00,0xAA,0xFF}; per configuration: "
-             "fixpoint over all sequences (any length) of %d API operations; writer: all sequences of <= %d of %d operations (+ each of 4 unencodable calls at every "
+             "fixpoint over all sequences (any length) of %d API operations; writer: all sequences of <= %d of %d operations (+ each of 6 unencodable calls at every "
              "position) x every capacity",
              L_FRAMED, VF_NTOK_HOSTILE, L_CORE, L_UNFRAMED, N_DOC, NOPS, WCF.K, WCF.nalpha);
     static const char *const assumptions[] = {
